@@ -459,6 +459,8 @@ class Scheduler:
         if self.import_depth[tid]:
             return
         self.steps += 1
+        if self.capped:  # beyond the step cap: no more pre-emption, keep the callback cheap
+            return
         self.seg[1] += 1
         if kind == "line":
             site = f"{code.co_filename[self.pkg_len:]}:{code.co_name}:L{where}"
